@@ -28,7 +28,9 @@ func addMarkers(b Batch, sc *Scenario, prefix string) {
 
 func c03Leaf(t *rapid.T, ctx *Ctx, sc *Scenario, prefix string, fam int) (*SegCase, error) {
 	var b Batch
-	if fam == FamBlocks {
+	if fam == FamWide {
+		b = GenWide(t).Batch(sc)
+	} else if fam == FamBlocks {
 		// 40..300 documents: merged stored blocks are crossed in the middle of an input
 		p := GenBlocks(t)
 		if rapid.Bool().Draw(t, prefix+":shortBlocks") {
@@ -44,8 +46,8 @@ func c03Leaf(t *rapid.T, ctx *Ctx, sc *Scenario, prefix string, fam int) (*SegCa
 		return nil, err
 	}
 	desc := b.String()
-	if fam == FamBlocks {
-		desc = fmt.Sprintf("blocks-with-markers{%d docs}", len(b))
+	if fam == FamBlocks || fam == FamWide {
+		desc = fmt.Sprintf("large-with-markers{%d docs}", len(b))
 	}
 	c := &SegCase{Seg: seg, Exp: Expect(b, sc.Norm.F), Docs: b, Mode: 1025, Desc: fmt.Sprintf("built{%s}", desc)}
 	hold := rapid.IntRange(holdBuilt, holdFile).Draw(t, prefix+":hold")
@@ -66,6 +68,12 @@ func TestC03(t *testing.T) {
 	rapid.Check(t, c03Prop(st, FamSmall))
 }
 
+func TestC03Wide(t *testing.T) {
+	st := NewStats("C03Wide", c03Rule)
+	defer st.Flush()
+	rapid.Check(t, c03Prop(st, FamWide))
+}
+
 func TestC03Blocks(t *testing.T) {
 	st := NewStats("C03Blocks", c03Rule)
 	defer st.Flush()
@@ -80,6 +88,9 @@ func c03Prop(st *CaseStats, fam int) func(t *rapid.T) {
 		k := rapid.IntRange(1, 4).Draw(t, "nIn")
 		if fam == FamBlocks {
 			k = rapid.IntRange(2, 3).Draw(t, "nInBlocks")
+		}
+		if fam == FamWide {
+			k = 2
 		}
 		ins := make([]*SegCase, k)
 		drops := make([]*roaring.Bitmap, k)
